@@ -154,6 +154,23 @@ TinyGames ==
                          <<Tr("", 1, 2), Tr("", 1, 6)>> },
             acts \in { <<2, 3>>, <<3, 2>>, <<4, 3>>, <<2, 4>>, <<3, 4, 2>>, <<2>> } }
 
+\* the tiny value has to travel several hops, one per sweep, to reach the initial
+\* state:  1 -> 2 -> 3 -> 4 (tiny) ; 5 dead, 6 lose, 7 win ; any owners on the way
+TinyChains ==
+    LET mk(o1, o2, o3, W, alt, r) ==
+          [n |-> 7,
+           owner  |-> <<o1, o2, o3, PR, PR, PR, PR>>,
+           reward |-> <<r, 1, 0, 1, 0, 0, 0>>,
+           tr |-> << IF o1 = PR THEN <<Tr("", 1, 2)>> ELSE <<Tr("a", 0, 2)>> \o (IF alt THEN <<Tr("b", 0, 5)>> ELSE <<>>),
+                     IF o2 = PR THEN <<Tr("", 1, 3), Tr("", 1, 5)>> ELSE <<Tr("a", 0, 3)>>,
+                     IF o3 = PR THEN <<Tr("", 1, 4)>> ELSE <<Tr("a", 0, 4)>> \o (IF alt /\ o3 = P1 THEN <<Tr("b", 0, 5)>> ELSE <<>>),
+                     <<Tr("", 1, 7), Tr("", W - 1, 6)>>,
+                     <<Tr("", 1, 6)>>, <<Tr("", 1, 6)>>, <<Tr("", 1, 7)>> >>,
+           final |-> <<7>>]
+    IN  { mk(o1, o2, o3, W, alt, r) :
+            o1 \in {P1, P2, PR}, o2 \in {P1, P2, PR}, o3 \in {P1, P2, PR},
+            W \in {3000000, 10000000}, alt \in BOOLEAN, r \in {0, 1} }
+
 -----------------------------------------------------------------------------
 (* Ties: the initial state chooses between X and Y whose values are equal   *)
 (* as rationals but are computed along different arithmetic paths (and an   *)
